@@ -88,8 +88,8 @@ Definition info_complete_b (r : registry) : bool :=
 Lemma reg_info_complete_l : info_complete_b reg = true.
 Proof. vm_compute. reflexivity. Qed.
 
-(* the whole registry was registered depth first, hence so was every family:
-   "the class registered last wins" holds literally (ProofsTree.last_registered_wins_l) *)
+(* informative only (nothing depends on it since from_alias compares registration
+   indices): the whole registry, and every family, is registered depth first *)
 Lemma reg_depth_first_l :
   registered_depth_first reg_tree = true
   /\ forallb registered_depth_first (flat_map visit_order (family_trees reg reg_families)) = true.
